@@ -709,6 +709,11 @@ class FilesWorld:
             if extra:
                 stats["extra_new_files_in_target"] += len(extra)
                 unexpected = [x for x in unexpected if x not in extra]
+        if unexpected and not dumping and not is_cli:
+            # an API call without a dump request that leaves files behind breaks C14's "creates no files" clause, not the
+            # agreement between entry points that C19 is about (only the command's --no-dump is named here): counted
+            stats["files_without_dump_request_api"] += len(unexpected)
+            unexpected = []
         if not dumping or ok_return or relaxed or outcome[0] == "exc":
             if unexpected:
                 viol.append({"oracle": "unexpected_files", "observed": unexpected[:10],
